@@ -18,7 +18,7 @@ use crate::props::Prop;
 pub const PROP: Prop = Prop {
     id: "C16",
     level: "exploration",
-    rule: "operation x length x shape x builder, one child process per case on a 2 MiB thread stack in the plain optimised profile: operations = parse from str/slice/reader, datum parse from reader (and from str at n <= 10^5), to_string, Display, to_writer, Cons::to_vec/into_vec/to_ref_vec, Value::to_vec/to_ref_vec, iter, list_iter, into_iter, get(n-1), [usize::MAX], is_list, is_dotted_list, clone, ==, drop, Datum clone/==/drop/list_iter/value conversion, serde to_value/from_value/to_string/from_str of Vec<u32>; lengths drawn log-uniformly from [2*10^5, 4*10^6] (two draws per operation in the quick tier, eight plus one 10^7 in the thorough tier); shapes proper, dotted and association list; element kinds number, #nil, (), boolean, symbol, string, character, float, keyword, byte vector, empty vector and seven long runs of changing kind (drawn per case in the optimised profile, and ALL kinds under the element-touching operations drop, drop of a replaced tail, drop of a partly consumed into_iter, clone, ==, print, parse, parse failing at end of input with n elements collected, to_vec, Datum drop/clone/==/conversion in the unoptimised profile at 1-2*10^5 elements); builders parser, constructors and Serde. The child verifies its result against a model (length, last element, printed text). A child killed by a signal is a violation with signature op=<operation>. Every case is non-trivial: 2*10^5 elements is far beyond what per-element recursion survives on 2 MiB; distinct by (op, n, shape, builder)",
+    rule: "operation x length x shape x builder, one child process per case on a 2 MiB thread stack in the plain optimised profile: operations = parse from str/slice/reader, datum parse from reader (and from str at n <= 10^5), to_string, Display, to_writer, Cons::to_vec/into_vec/to_ref_vec, Value::to_vec/to_ref_vec, iter, list_iter, into_iter, get(n-1), [usize::MAX], is_list, is_dotted_list, clone, ==, drop, Datum clone/==/drop/list_iter/value conversion, serde to_value/from_value/to_string/from_str of Vec<u32>; lengths drawn log-uniformly from [2*10^5, 4*10^6] (two draws per operation in the quick tier, eight plus one 10^7 in the thorough tier); shapes proper, dotted and association list; comparisons of equal lists, of lists differing only at the end, at every position and at every second position; deserialisation of long inputs through a skipped unknown struct field, IgnoredAny, wrong-kind targets, a long vector and a long improper list; element kinds number, #nil, (), boolean, symbol, string, character, float, keyword, byte vector, empty vector and seven long runs of changing kind (drawn per case in the optimised profile, and ALL kinds under the element-touching operations drop, drop of a replaced tail, drop of a partly consumed into_iter, clone, ==, print, parse, parse failing at end of input with n elements collected, to_vec, Datum drop/clone/==/conversion in the unoptimised profile at 1-2*10^5 elements); builders parser, constructors and Serde. The child verifies its result against a model (length, last element, printed text). A child killed by a signal is a violation with signature op=<operation>. Every case is non-trivial: 2*10^5 elements is far beyond what per-element recursion survives on 2 MiB; distinct by (op, n, shape, builder)",
     assumptions: &[
         "stack independence is shown for the sampled lengths, on this platform, for the optimised (release-like) profile without debug assertions: frame sizes and tail-call elimination are compiler artefacts",
         "a watchdog expiry (120 s) is reported as inconclusive, never as a violation",
@@ -211,7 +211,7 @@ fn run_op(spec: &Spec) -> Json {
                 lexpr::datum::from_reader(Cursor::new(t.into_bytes())).is_err()
             }
         }
-        "datum-parse-reader" | "datum-parse-str" | "datum-clone" | "datum-eq" | "datum-drop" | "datum-list_iter" | "datum-into-value" | "datum-as_pair-walk" => {
+        "datum-parse-reader" | "datum-parse-str" | "datum-clone" | "datum-eq" | "datum-ne-last" | "datum-ne-everywhere" | "datum-drop" | "datum-list_iter" | "datum-into-value" | "datum-as_pair-walk" => {
             let t = text_of(n, shape);
             let d = if op == "datum-parse-str" {
                 lexpr::datum::from_str(&t).expect("parse")
@@ -234,6 +234,35 @@ fn run_op(spec: &Spec) -> Json {
                 "datum-eq" => {
                     let e = lexpr::datum::from_reader(Cursor::new(t.into_bytes())).expect("parse");
                     let r = d == e;
+                    std::mem::forget(e);
+                    std::mem::forget(d);
+                    r
+                }
+                "datum-ne-last" => {
+                    // differs only at the very end: the comparison has to walk everything
+                    let t2 = if shape == "dotted" { t.replace(" . end)", " . other)") } else { format!("{} x)", &t[..t.len() - 1]) };
+                    let e = lexpr::datum::from_reader(Cursor::new(t2.into_bytes())).expect("parse");
+                    let r = d != e;
+                    std::mem::forget(e);
+                    std::mem::forget(d);
+                    r
+                }
+                "datum-ne-everywhere" => {
+                    // same length, every element different (so are all the spans after the first)
+                    let t2 = {
+                        let mut s2 = String::with_capacity(t.len() + n);
+                        s2.push('(');
+                        for i in 0..n {
+                            if i > 0 {
+                                s2.push(' ');
+                            }
+                            s2.push_str(if i % 3 == 0 { "zz" } else { "q" });
+                        }
+                        s2.push(')');
+                        s2
+                    };
+                    let e = lexpr::datum::from_reader(Cursor::new(t2.into_bytes())).expect("parse");
+                    let r = d != e && e != d;
                     std::mem::forget(e);
                     std::mem::forget(d);
                     r
@@ -290,6 +319,49 @@ fn run_op(spec: &Spec) -> Json {
             let v: Vec<u32> = serde_lexpr::from_value(&x).expect("from_value");
             std::mem::forget(x);
             v.len() == n && v[n - 1] == ((n - 1) % 1000) as u32
+        }
+        #[cfg(feature = "ff")]
+        "serde-skip-long-field" | "serde-ignored-any" | "serde-wrong-kind-long" | "serde-long-vector" | "serde-improper-long" => {
+            #[derive(serde::Deserialize, PartialEq, Debug)]
+            struct P2 {
+                x: u32,
+                y: u32,
+            }
+            let long = build(spec);
+            let r = match op {
+                // a derived struct skips an entry it does not know through
+                // deserialize_ignored_any, whatever the size of the entry
+                "serde-skip-long-field" => {
+                    let v = Value::list(vec![Value::cons(Value::symbol("x"), 1u32), Value::cons(Value::symbol("junk"), long), Value::cons(Value::symbol("y"), 2u32)]);
+                    let r = serde_lexpr::from_value::<P2>(&v).ok() == Some(P2 { x: 1, y: 2 });
+                    std::mem::forget(v);
+                    return json!({"ok": r});
+                }
+                "serde-ignored-any" => serde_lexpr::from_value::<serde::de::IgnoredAny>(&long).is_ok(),
+                // a long list where something else is expected: an error, whatever its length
+                "serde-wrong-kind-long" => {
+                    // (a tuple target reads its two elements and ignores the rest:
+                    // either outcome is fine, it only has to return)
+                    let _ = serde_lexpr::from_value::<(u32, u32)>(&long);
+                    serde_lexpr::from_value::<u32>(&long).is_err()
+                        && serde_lexpr::from_value::<String>(&long).is_err()
+                        && serde_lexpr::from_value::<P2>(&long).is_err()
+                }
+                "serde-long-vector" => {
+                    let v = Value::Vector((0..n).map(|i| Value::from((i % 1000) as u32)).collect::<Vec<_>>().into());
+                    let r = serde_lexpr::from_value::<Vec<u32>>(&v).map(|x| x.len()).ok() == Some(n);
+                    std::mem::forget(v);
+                    r
+                }
+                _ => {
+                    let v = Value::append((0..n).map(|i| Value::from((i % 1000) as u32)), Value::from(7u32));
+                    let r = serde_lexpr::from_value::<Vec<u32>>(&v).is_err();
+                    std::mem::forget(v);
+                    r
+                }
+            };
+            std::mem::forget(long);
+            r
         }
         #[cfg(feature = "ff")]
         "serde-to_string" => {
@@ -355,6 +427,14 @@ fn run_op(spec: &Spec) -> Json {
                     // differs only in the last element: the comparison has to walk everything
                     let w = Value::append((0..n).map(|i| elem(i, n, shape)), Value::symbol("other-end"));
                     let r = v != w;
+                    std::mem::forget(w);
+                    r
+                }
+                "ne-everywhere" | "ne-half" => {
+                    // the other list differs at every (every second) position and in its tail
+                    let step = if op == "ne-half" { 2 } else { 1 };
+                    let w = Value::append((0..n).map(|i| if i % step == 0 { Value::symbol("different") } else { elem(i, n, shape) }), Value::symbol("other-end"));
+                    let r = v != w && w != v;
                     std::mem::forget(w);
                     r
                 }
@@ -475,19 +555,24 @@ pub fn judge(s: &Spec, out: &ChildOutcome) -> Result<CaseResult, String> {
 const VALUE_OPS: &[&str] = &[
     "print-to_string", "print-display", "print-to_writer", "cons-to_vec", "cons-into_vec", "cons-to_ref_vec", "value-to_vec",
     "value-to_ref_vec", "iter-count", "list_iter-count", "into_iter-count", "get-last", "index-max", "index-name", "is_list",
-    "is_dotted_list", "clone", "eq", "ne-last", "drop", "drop-tail", "into_iter-partial-drop",
+    "is_dotted_list", "clone", "eq", "ne-last", "ne-everywhere", "ne-half", "drop", "drop-tail", "into_iter-partial-drop",
 ];
 const PARSE_OPS: &[&str] = &["parse-str", "parse-slice", "parse-reader", "parse-iter", "parse-error-discard"];
 const DATUM_OPS: &[&str] = &[
-    "datum-parse-reader", "datum-clone", "datum-eq", "datum-drop", "datum-list_iter", "datum-into-value", "datum-as_pair-walk",
+    "datum-parse-reader", "datum-clone", "datum-eq", "datum-ne-last", "datum-ne-everywhere", "datum-drop", "datum-list_iter", "datum-into-value", "datum-as_pair-walk",
     "datum-parse-error-discard",
 ];
 /// operations swept over every element kind in the unoptimised profile
 const KIND_SWEEP_OPS: &[&str] = &[
-    "drop", "drop-tail", "into_iter-partial-drop", "clone", "eq", "print-to_string", "parse-reader", "parse-error-discard", "value-to_vec",
+    "drop", "drop-tail", "into_iter-partial-drop", "clone", "eq", "ne-everywhere", "print-to_string", "parse-reader", "parse-error-discard", "value-to_vec",
     "datum-drop", "datum-clone", "datum-eq", "datum-into-value",
 ];
-const SERDE_OPS: &[&str] = &["serde-to_value", "serde-from_value", "serde-to_string", "serde-from_str"];
+const SERDE_OPS: &[&str] = &[
+    "serde-to_value", "serde-from_value", "serde-to_string", "serde-from_str", "serde-skip-long-field", "serde-ignored-any",
+    "serde-wrong-kind-long", "serde-long-vector", "serde-improper-long",
+];
+/// the deserialisation operations that C18 (totality) also runs as children
+pub const SERDE_TOTALITY_OPS: &[&str] = &["serde-skip-long-field", "serde-ignored-any", "serde-wrong-kind-long", "serde-long-vector", "serde-improper-long", "serde-from_value"];
 
 fn specs(tier: Tier, seed: u64) -> Vec<Spec> {
     let mut out = Vec::new();
